@@ -425,6 +425,28 @@ def check_C06(tier, seed, replay):
                   and any(h["ev"] == "info" and h["r"] == "hit" for h in c.exp.get("hist", [])))
     res.coverage["long_inputs_real_only"] = len(long_cases)
     res.coverage["cases_with_hit_on_failing_parse"] = failing
+    if not replay:
+        # the cache protocol by itself (spec/MemoTable.tla): holds with the insert on every way out of the body,
+        # and the protocol with an exit that skips the insert (the code before fix 79c8e9e) must be refuted
+        m0 = tlc_simple("memotable_fixed", "MemoTable.tla", "MemoTable_fixed.cfg", tier, workers=2)
+        if m0["rc"] != 0:
+            raise ToolError("MemoTable (insert on every exit) violates Packrat / Transparent:\n%s" % (m0["violation"] or "")[:2000])
+        m1 = tlc_simple("memotable_early", "MemoTable.tla", "MemoTable_early.cfg", tier, workers=2)
+        if m1["rc"] == 0:
+            raise ToolError("vacuity: TLC no longer refutes the cache protocol with an exit that skips the insert")
+        res.coverage["memo_protocol_states"] = m0["distinct"]
+        res.coverage["excluded_protocols_refuted_by_tlc"] = ["early_exit_without_insert"]
+        if tier == "thorough":
+            import re
+            import subprocess
+            try:
+                p_ = subprocess.run(["tlapm", "--threads", "8", "--cleanfp", "-I", "..", "MemoTableProofs.tla"],
+                                    cwd=os.path.join(vlib.SPEC, "proofs"), stdout=subprocess.PIPE, stderr=subprocess.STDOUT, text=True, timeout=900)
+                m = re.search(r"All (\d+) obligations? proved", p_.stdout)
+                res.coverage["tlaps_memo_table"] = ({"obligations": int(m.group(1)), "proved": int(m.group(1))} if m
+                                                    else {"failed": p_.stdout[-400:]})
+            except Exception as ex:  # noqa
+                res.coverage["tlaps_memo_table"] = {"not_run": str(ex)[:200]}
     return res
 
 
